@@ -5,7 +5,7 @@ import (
 	"fmt"
 	"math"
 	"sort"
-	"sync/atomic"
+	"sync"
 	"unsafe"
 
 	"github.com/aclements/go-moremath/stats"
@@ -32,8 +32,25 @@ import (
 //   StdDev   the image of the variance interval under sqrt, plus 4 ulp
 //   GeoMean  (1 + sum w|ln x| / sum w) * G
 // Bounds, Sort, Copy, Map, Concat are exact.
+//
+// Overflow: the statement covers any finite data, so a finite Mean, GeoMean
+// or Bounds must come out finite whatever the magnitudes (values up to 1e307
+// of one sign are drawn). Sum is judged only while sum|w x| <= 2^1000 and
+// Variance/StdDev only while sum x^2 <= 2^960: beyond that the exact result
+// overflows or nearly overflows float64 (+-Inf is then the correct rounding)
+// or a correct algorithm may overflow in its squares, and nothing is judged.
 
 const c09Eps = 0x1p-52
+
+const (
+	c09SumMax = 0x1p1000 // Sum is judged while sum|w x| <= c09SumMax
+	c09SqMax  = 0x1p960  // Variance/StdDev are judged while sum x^2 <= c09SqMax
+)
+
+// c09SumJudged / c09VarJudged: reference-side decision whether the exact
+// result is finite and far from overflow (false for NaN and Inf).
+func c09SumJudged(d *ref.Desc) bool { return d.SumAbs <= c09SumMax }
+func c09VarJudged(d *ref.Desc) bool { return d.SumSq <= c09SqMax }
 
 type c09Op struct {
 	Op  string `json:"op"` // sort | copy | query | mutx | mutw | flag
@@ -60,8 +77,10 @@ type c09Case struct {
 	Hi   mon.F `json:"hi,omitempty"`
 	Base mon.F `json:"base,omitempty"`
 	Num  int   `json:"num,omitempty"`
-	// map
-	Fn int `json:"fn,omitempty"`
+	// map: function index; Seq selects the sequence of inputs (derived from
+	// Xs) every closure / Map is applied to, see c09MapInputs
+	Fn  int `json:"fn,omitempty"`
+	Seq int `json:"seq,omitempty"`
 	// concat: part k has values Parts[k], Caps[k] spare elements of
 	// capacity, is nil when Nil[k], and is the very same slice as part
 	// Alias[k] when Alias[k] >= 0
@@ -216,7 +235,7 @@ func c09Tolerances(d *ref.Desc, nops int) c09Tol {
 	t := c09Tol{sum: k * d.SumAbs, weight: k * d.W, mean: k * d.MeanAbs}
 	if !d.Weighted && d.N >= 2 {
 		n1 := float64(d.N - 1)
-		t.vr = k*math.Sqrt(d.SumSq*d.SS)/n1 + k*k*d.SumSq/n1
+		t.vr = k*math.Sqrt(d.SumSq)*math.Sqrt(d.SS)/n1 + k*k*d.SumSq/n1
 		lo := math.Sqrt(math.Max(0, d.Var-t.vr))
 		hi := math.Sqrt(d.Var + t.vr)
 		t.sd = math.Max(d.SD-lo, hi-d.SD) + 4*c09Eps*d.SD
@@ -291,7 +310,12 @@ func (j *c09Ctx) query(s stats.Sample, d *ref.Desc, label string) (r c09Res) {
 	if !j.call("Sample.Sum", label, func() { r.sum = s.Sum() }) {
 		return
 	}
-	j.value("Sample.Sum", label, r.sum, d.Sum, t.sum)
+	sumOK, varOK := c09SumJudged(d), c09VarJudged(d)
+	if sumOK {
+		j.value("Sample.Sum", label, r.sum, d.Sum, t.sum)
+	} else {
+		j.w.Note("sum-not-judged:exact-value-overflows-or-nearly")
+	}
 	if !j.call("Sample.Weight", label, func() { r.weight = s.Weight() }) {
 		return
 	}
@@ -324,9 +348,11 @@ func (j *c09Ctx) query(s stats.Sample, d *ref.Desc, label string) (r c09Res) {
 		if d.N < 2 {
 			j.small("Sample.Variance", label, r.vr)
 			j.small("Sample.StdDev", label, r.sd)
-		} else {
+		} else if varOK {
 			j.value("Sample.Variance", label, r.vr, d.Var, t.vr)
 			j.value("Sample.StdDev", label, r.sd, d.SD, t.sd)
+		} else {
+			j.w.Note("variance-not-judged:squares-overflow-or-nearly")
 		}
 
 		// slice API
@@ -350,7 +376,7 @@ func (j *c09Ctx) query(s stats.Sample, d *ref.Desc, label string) (r c09Res) {
 		if d.N < 2 {
 			j.small("stats.Variance", label, v)
 			j.small("stats.StdDev", label, sd)
-		} else {
+		} else if varOK {
 			j.value("stats.Variance", label, v, d.Var, t.vr)
 			j.value("stats.StdDev", label, sd, d.SD, t.sd)
 		}
@@ -364,7 +390,9 @@ func (j *c09Ctx) query(s stats.Sample, d *ref.Desc, label string) (r c09Res) {
 		if !j.call("vec.Sum", label, func() { g = vec.Sum(xs) }) {
 			return
 		}
-		j.value("vec.Sum", label, g, d.Sum, t.sum)
+		if sumOK {
+			j.value("vec.Sum", label, g, d.Sum, t.sum)
+		}
 	}
 	r.ok = true
 	return
@@ -414,6 +442,24 @@ func c09JudgeSample(w *mon.W, c c09Case) {
 		}
 	}
 	w.HitIf(ties, "ties")
+	// magnitudes (inputs and exact sums only)
+	amax, amin := 0.0, math.Inf(1)
+	oneSign := true
+	for _, x := range xs {
+		if a := math.Abs(x); a > 0 {
+			amax, amin = math.Max(amax, a), math.Min(amin, a)
+		}
+		if n > 0 && x != 0 && (x < 0) != (axs[0] < 0) {
+			oneSign = false
+		}
+	}
+	w.HitIf(amax >= 1e300 && oneSign, "huge-same-sign")
+	w.HitIf(amax >= 1e300 && oneSign && !c.HasW && math.IsInf(d.Sum, 0), "huge-plain-sum-overflows")
+	w.HitIf(amax >= 1e300 && oneSign && c.HasW && d.NPos > 0 && math.IsInf(d.Sum, 0), "huge-weighted-sum-overflows")
+	w.HitIf(amax >= 1e300 && amin <= 1, "huge-and-small-mixed")
+	w.HitIf(amax >= 1e300 && n >= 2 && d.W > 0 && (d.Max-d.Min) <= 1e-9*amax, "huge-offset-small-spread")
+	w.HitIf(amax >= 1e290 && c09SumJudged(d), "huge-sum-judged")
+	w.HitIf(amax >= 1e100 && !c.HasW && n >= 2 && c09VarJudged(d), "large-variance-judged")
 	w.HitIf(n >= 1 && d.NonPos && !c.HasW, "geomean-nonpositive")
 	w.HitIf(n >= 1 && d.NonPos && !c.HasW && axs[0] == 0, "geomean-zero-is-the-minimum")
 	w.HitIf(n >= 1 && !d.NonPos, "geomean-positive")
@@ -509,7 +555,9 @@ func c09JudgeSample(w *mon.W, c c09Case) {
 			}
 		}
 		law("Mean", rw.mean, re.mean, tw.mean+te.mean)
-		law("Sum", rw.sum, re.sum, tw.sum+te.sum)
+		if c09SumJudged(d) && c09SumJudged(de) {
+			law("Sum", rw.sum, re.sum, tw.sum+te.sum)
+		}
 		law("Weight", rw.weight, re.weight, tw.weight+te.weight)
 		if rw.hasGeo && re.hasGeo {
 			law("GeoMean", rw.geo, re.geo, tw.geo+te.geo)
@@ -811,6 +859,11 @@ func c09JudgeLogspace(w *mon.W, c c09Case) {
 	w.HitIf(num >= 2, "logspace-num>=2")
 	w.HitIf(base < 1, "logspace-base<1")
 	w.HitIf(base == 1, "logspace-base=1")
+	w.HitIf(num >= 200, "logspace-num>=200")
+	w.HitIf(num >= 1000, "logspace-num>=1000")
+	// many values and a tight tolerance: an error that grows with the index
+	// (a progression built by repeated multiplication) shows here
+	w.HitIf(num >= 1000 && lb*scale <= 8 && base != 1 && lo != hi, "logspace-num>=1000-small-exponents")
 	w.Distinct(mon.NewHasher().S("logspace").F(lo).F(hi).I(num).F(base).Sum())
 	var res []float64
 	if !j.call("vec.Logspace", "logspace", func() { res = vec.Logspace(lo, hi, num, base) }) {
@@ -820,17 +873,26 @@ func c09JudgeLogspace(w *mon.W, c c09Case) {
 		j.bad("logspace-len", fmt.Sprintf("Logspace(%v,%v,%d,%v) has %d values", lo, hi, num, base, len(res)))
 		return
 	}
+	// every element against base**(lo + i (hi-lo)/(num-1)) with one relative
+	// tolerance for the whole vector: it does not grow with the index
 	rel := 16 * c09Eps * (2 + lb*scale)
-	bb := ref.NF(base)
+	lnb := ref.Log(ref.NF(base))
+	d := ref.Sub(ref.NF(hi), ref.NF(lo))
 	for i := 0; i < num; i++ {
 		var e = ref.NF(lo)
 		if num > 1 {
-			d := ref.Sub(ref.NF(hi), ref.NF(lo))
 			e = ref.Add(ref.NF(lo), ref.Quo(ref.Mul(ref.NI(int64(i)), d), ref.NI(int64(num-1))))
 		}
-		want := ref.F64(ref.Pow(bb, e))
-		if !w.Err("vec.Logspace", math.Abs(res[i]-want), rel*want) {
-			j.bad("logspace-value", fmt.Sprintf("Logspace(%v,%v,%d,%v)[%d] = %.17g, base**Linspace = %.17g (rel tol %.3g)", lo, hi, num, base, i, res[i], want, rel))
+		want := 1.0
+		if e.Sign() != 0 {
+			want = ref.F64(ref.Exp(ref.Mul(e, lnb))) // = ref.Pow(base, e)
+		}
+		oracle := "vec.Logspace"
+		if num >= 2 && (i == 0 || i == num-1) {
+			oracle = "vec.Logspace:end-point"
+		}
+		if !w.Err(oracle, math.Abs(res[i]-want), rel*want) {
+			j.bad("logspace-value", fmt.Sprintf("Logspace(%v,%v,%d,%v)[%d] = %.17g, base**Linspace = %.17g (|rel err| %.3g > rel tol %.3g, the same for every index)", lo, hi, num, base, i, res[i], want, math.Abs(res[i]-want)/want, rel))
 			return
 		}
 	}
@@ -852,6 +914,68 @@ var c09Fns = []func(float64) float64{
 	func(x float64) float64 { return -x },
 }
 
+// c09MapInputs lists the inputs one closure returned by Vectorize (and Map)
+// is applied to in turn: xs first, then inputs of equal length (xs rotated,
+// so that the results differ wherever xs is not constant) and of unequal
+// length.
+func c09MapInputs(xs []float64, seq int) (ins [][]float64, equal, unequal bool) {
+	n := len(xs)
+	rot := func(k int) []float64 {
+		out := make([]float64, n)
+		for i := range out {
+			out[i] = xs[(i+k)%n]
+		}
+		return out
+	}
+	short := []float64{2.5, -1, 7}
+	if n >= 2 {
+		short = c09Clone(xs[:n/2])
+	}
+	ins = [][]float64{c09Clone(xs)}
+	if ins[0] == nil {
+		ins[0] = []float64{}
+	}
+	switch seq {
+	case 1:
+		ins = append(ins, rot(1))
+	case 2:
+		ins = append(ins, rot(1), short)
+	case 3:
+		ins = append(ins, short, rot(1))
+	case 4:
+		ins = append(ins, rot(1), rot(2))
+	}
+	return ins, seq == 1 || seq == 2 || seq == 4, seq == 2 || seq == 3
+}
+
+// c09Tracker counts, per argument bit pattern, the calls of the function
+// handed to Map/Vectorize (which may call it from several goroutines).
+type c09Tracker struct {
+	mu    sync.Mutex
+	seen  map[uint64]int
+	calls int
+}
+
+func c09Key(x float64) uint64 {
+	if math.IsNaN(x) {
+		return 0x7ff8000000000001
+	}
+	return math.Float64bits(x)
+}
+
+func (t *c09Tracker) reset() {
+	t.mu.Lock()
+	t.seen, t.calls = map[uint64]int{}, 0
+	t.mu.Unlock()
+}
+
+func (t *c09Tracker) hit(x float64) {
+	t.mu.Lock()
+	t.seen[c09Key(x)]++
+	t.calls++
+	t.mu.Unlock()
+}
+
 func c09JudgeMap(w *mon.W, c c09Case) {
 	xs := mon.Un(c.Xs)
 	j := &c09Ctx{w: w, c: c}
@@ -859,46 +983,114 @@ func c09JudgeMap(w *mon.W, c c09Case) {
 		return
 	}
 	f := c09Fns[c.Fn]
-	var calls int64
-	cf := func(x float64) float64 { atomic.AddInt64(&calls, 1); return f(x) }
-	w.HitIf(len(xs) == 0, "map-n=0")
-	w.HitIf(len(xs) > 0, "map")
-	w.Distinct(mon.NewHasher().S("map").Fs(xs).I(c.Fn).Sum())
+	tr := &c09Tracker{}
+	cf := func(x float64) float64 { tr.hit(x); return f(x) }
+	n := len(xs)
+	ins, equal, unequal := c09MapInputs(xs, c.Seq)
+	w.HitIf(n == 0, "map-n=0")
+	w.HitIf(n > 0, "map")
+	w.HitIf(n >= 128, "map-n>=128")
+	w.HitIf(n >= 128 && n%16 != 0, "map-n>=128-ragged")
+	w.HitIf(n >= 1000, "map-n>=1000")
+	w.HitIf(equal && n > 0, "map-repeat-equal-length")
+	w.HitIf(unequal, "map-repeat-unequal-length")
+	w.Distinct(mon.NewHasher().S("map").Fs(xs).I(c.Fn).I(c.Seq).Sum())
+	same := func(a, b float64) bool {
+		return math.Float64bits(a) == math.Float64bits(b) || (math.IsNaN(a) && math.IsNaN(b))
+	}
 	for _, via := range []string{"vec.Map", "vec.Vectorize"} {
-		cx := c09Clone(xs)
-		if len(xs) == 0 && c.Fn%2 == 1 {
-			cx = nil
-		}
-		var res []float64
-		ok := false
-		if via == "vec.Map" {
-			ok = j.call(via, via, func() { res = vec.Map(cf, cx) })
-		} else {
-			ok = j.call(via, via, func() { res = vec.Vectorize(cf)(cx) })
-		}
-		if !ok {
-			return
-		}
-		if len(res) != len(xs) {
-			j.bad("map-len", fmt.Sprintf("%s over %d values returned %d", via, len(xs), len(res)))
-			return
-		}
-		for i, x := range xs {
-			want := f(x)
-			if !(math.Float64bits(res[i]) == math.Float64bits(want) || (math.IsNaN(res[i]) && math.IsNaN(want))) {
-				j.bad("map-value", fmt.Sprintf("%s: result[%d] = %v, f(%v) = %v", via, i, res[i], x, want))
+		// one closure per case for Vectorize, applied to every input in turn
+		var g func([]float64) []float64
+		if via == "vec.Vectorize" {
+			if !j.call("vec.Vectorize", via, func() { g = vec.Vectorize(cf) }) {
+				return
+			}
+			if g == nil {
+				j.bad("map-len", "vec.Vectorize returned a nil function")
 				return
 			}
 		}
-		if !c09BitsEqual(cx, xs) {
-			j.bad("input-modified", via+" modified its input")
-			return
+		args := make([][]float64, len(ins)) // what the library is handed
+		ress := make([][]float64, len(ins))
+		tr.reset() // calls are counted over all applications (a closure that remembers earlier evaluations is not excluded)
+		for k, in := range ins {
+			cx := c09Clone(in)
+			if len(in) == 0 && c.Fn%2 == 1 {
+				cx = nil
+			}
+			args[k] = cx
+			label := fmt.Sprintf("%s call %d", via, k)
+			var res []float64
+			ok := false
+			if g == nil {
+				ok = j.call(via, label, func() { res = vec.Map(cf, cx) })
+			} else {
+				ok = j.call(via, label, func() { res = g(cx) })
+			}
+			if !ok {
+				return
+			}
+			ress[k] = res
+			if len(res) != len(in) {
+				j.bad("map-len", fmt.Sprintf("%s over %d values returned %d", label, len(in), len(res)))
+				return
+			}
+			for i, x := range in {
+				if want := f(x); !same(res[i], want) {
+					j.bad("map-value", fmt.Sprintf("%s over %d values: result[%d] = %v, f(%v) = %v", label, len(in), i, res[i], x, want))
+					return
+				}
+			}
+			// f is a black box: a result element can only come from a call of
+			// f with that element's value (how many calls, in which order and
+			// on which goroutine is free)
+			tr.mu.Lock()
+			missing, at := false, 0
+			for i, x := range in {
+				if tr.seen[c09Key(x)] == 0 {
+					missing, at = true, i
+					break
+				}
+			}
+			tr.mu.Unlock()
+			if missing {
+				j.bad("map-not-called", fmt.Sprintf("%s over %d values: f was never called with element %d (%v)", label, len(in), at, in[at]))
+				return
+			}
 		}
-		if c09Overlap(res, cx) {
-			j.bad("map-storage", via+" returned storage shared with its input")
-			return
+		// afterwards: every earlier result still holds f of its own input,
+		// no input was written, and every call returned storage of its own
+		for k, in := range ins {
+			if !c09BitsEqual(args[k], in) {
+				j.bad("input-modified", fmt.Sprintf("%s modified the input of call %d", via, k))
+				return
+			}
+			for i, x := range in {
+				if want := f(x); !same(ress[k][i], want) {
+					j.bad("map-result-overwritten", fmt.Sprintf("%s: after %d calls (input lengths %v) the result of call %d changed: result[%d] = %v, f(%v) = %v", via, len(ins), c09Lens(ins), k, i, ress[k][i], x, want))
+					return
+				}
+			}
+			for l := range ins {
+				if c09Overlap(ress[k], args[l]) {
+					j.bad("map-storage", fmt.Sprintf("%s: the result of call %d shares storage with the input of call %d", via, k, l))
+					return
+				}
+				if l > k && c09Overlap(ress[k], ress[l]) {
+					j.bad("map-storage", fmt.Sprintf("%s: the results of calls %d and %d (input lengths %v) share storage", via, k, l, c09Lens(ins)))
+					return
+				}
+			}
 		}
 	}
+}
+
+func c09Lens(ins [][]float64) []int {
+	out := make([]int, len(ins))
+	for i := range ins {
+		out[i] = len(ins[i])
+	}
+	return out
 }
 
 const c09Canary = -7.25e77
@@ -1068,6 +1260,89 @@ func c09Values(rng *mon.Rand, shape, n int) []float64 {
 		sort.Sort(sort.Reverse(sort.Float64Slice(xs)))
 	}
 	return xs
+}
+
+// c09HugeValues draws values at the top of the float64 range, all of one
+// sign (so that no difference of two values overflows): the statement covers
+// any finite data.
+//
+//	0  every |x| in 1e305..1e307: the plain sum of some twenty values overflows
+//	1  huge (1e300..1e307) and small (1e-200..1) values mixed
+//	2  a huge offset with a tiny relative spread, or exactly constant
+//	3  |x| in 1e290..1e298: the sum is finite and judged
+//	4  any sign, |x| in 1e60..1e140: the squares stay finite, Variance is judged
+func c09HugeValues(rng *mon.Rand, variant, n int) []float64 {
+	xs := make([]float64, n)
+	sg := rng.Sign()
+	switch variant {
+	case 0:
+		for i := range xs {
+			xs[i] = sg * math.Pow(10, rng.Uniform(305, 307))
+		}
+	case 1:
+		for i := range xs {
+			if rng.Intn(3) == 0 {
+				xs[i] = sg * math.Pow(10, rng.Uniform(300, 307))
+			} else {
+				xs[i] = sg * math.Pow(10, rng.Uniform(-200, 0))
+			}
+		}
+		if n > 0 {
+			xs[rng.Intn(n)] = sg * math.Pow(10, rng.Uniform(306, 307))
+		}
+		if n > 1 && rng.Bool() { // the naive sum overflows although most values are small
+			for k := 0; k < 20 && k < n; k++ {
+				xs[rng.Intn(n)] = sg * math.Pow(10, rng.Uniform(306.5, 307))
+			}
+		}
+	case 2:
+		s := sg * math.Pow(10, rng.Uniform(306, 306.99))
+		rel := rng.Pick(0, 1e-15, 1e-12, 1e-6)
+		for i := range xs {
+			xs[i] = s * (1 + rel*rng.Norm())
+		}
+	case 3:
+		for i := range xs {
+			xs[i] = sg * math.Pow(10, rng.Uniform(290, 298))
+		}
+	default:
+		for i := range xs {
+			xs[i] = rng.Sign() * math.Pow(10, rng.Uniform(60, 140))
+		}
+	}
+	for i, x := range xs { // never beyond 1e307 whatever the rounding of Pow
+		if math.Abs(x) > 1e307 {
+			xs[i] = math.Copysign(1e307, x)
+		}
+	}
+	switch rng.Intn(6) {
+	case 0:
+		sort.Float64s(xs)
+	case 1:
+		sort.Sort(sort.Reverse(sort.Float64Slice(xs)))
+	}
+	return xs
+}
+
+// c09GenHuge: samples of c09HugeValues, unweighted or with the usual weight
+// vectors (w <= 12, so that no w*x overflows).
+func c09GenHuge(rng *mon.Rand, i int) c09Case {
+	variant := i % 5
+	wmode := (i / 5) % 8 // 0..3 unweighted, 4..7 weight modes 0..3
+	n := c09N(rng)
+	switch {
+	case i%50 == 11:
+		n = rng.Range(1, 2)
+	case variant == 0 && i%3 == 0:
+		n = rng.Range(20, 200) // enough values for the sum to overflow
+	}
+	xs := c09HugeValues(rng, variant, n)
+	c := c09Case{Kind: "sample", Xs: mon.Fs(xs), Seed: rng.Uint64(), NPerm: 4}
+	if wmode >= 4 {
+		c.HasW = true
+		c.Ws = mon.Fs(c09Weights(rng, wmode-4, xs))
+	}
+	return c
 }
 
 func c09N(rng *mon.Rand) int {
@@ -1310,18 +1585,24 @@ func c09SelfTest() error {
 }
 
 func c09Run(r *mon.Run) {
-	r.Rule("samples: n=0..200 values of 12 shapes (offset/spread up to 1e9, ties, constant, outlier, cancelling pairs, 120 decades of magnitude, integers with signed zeros), unweighted / integer weights 0..5 (also 0..12, all-zero, all-one, single) / real weights in [0.25,8]; every sample is queried (Sum, Weight, Mean, Bounds, GeoMean, Variance, StdDev on the Sample; Mean, GeoMean, Variance, StdDev, Bounds, vec.Sum on the slice) in 8 orders: as given, ascending, ascending with Sorted=true, descending, 4 random permutations; integer-weighted samples also as the sample with each value repeated weight times. histories: up to 12 operations of {Sort, Copy, query, write x, write w, set Sorted on ascending data} over the objects created so far, against the pair-multiset model. vec: Sum, Linspace (num 0..1000, offsets, descending), Logspace, Map/Vectorize (8 functions), Concat (nil, empty, aliased arguments, canaries in spare capacity). A case is non-trivial if it hits any class; distinct by hash of the whole case.")
+	r.Rule("samples: n=0..200 values of 12 shapes (offset/spread up to 1e9, ties, constant, outlier, cancelling pairs, 120 decades of magnitude, integers with signed zeros) and of 5 huge shapes (one sign, |x| up to 1e307: sums that overflow, huge mixed with small, huge offset with tiny spread; |x| 1e290..1e298; any sign 1e60..1e140), unweighted / integer weights 0..5 (also 0..12, all-zero, all-one, single) / real weights in [0.25,8]; every sample is queried (Sum, Weight, Mean, Bounds, GeoMean, Variance, StdDev on the Sample; Mean, GeoMean, Variance, StdDev, Bounds, vec.Sum on the slice) in 8 orders: as given, ascending, ascending with Sorted=true, descending, 4 random permutations; integer-weighted samples also as the sample with each value repeated weight times. histories: up to 12 operations of {Sort, Copy, query, write x, write w, set Sorted on ascending data} over the objects created so far, against the pair-multiset model. vec: Sum, Linspace (num 0..1000, offsets, descending), Logspace (num 0..24 and 200, 257, 1000; every element against base**(exact Linspace) with one relative tolerance for the whole vector), Map/Vectorize (8 functions; 0..200 values and 1000..4099; Map and each Vectorize closure applied 1-3 times to inputs of equal and unequal length, then every result re-checked bit for bit and all results and inputs checked for shared storage; f must have been called with every element), Concat (nil, empty, aliased arguments, canaries in spare capacity). A case is non-trivial if it hits any class; distinct by hash of the whole case.")
 	r.Assume("reference: 384-bit big.Float arithmetic on the exact binary values, cross-checked at start-up against big.Rat, text-book values and gonum/stat",
 		"tolerances: 16*nops*eps*kappa*scale from the conditioning of the problem (see the head of props/c09.go); Bounds, Sort, Copy, Map, Concat exact",
 		"weighted Variance/StdDev (documented as unimplemented) and weighted GeoMean of samples with a non-positive value of non-zero weight are not called; zero-weight values are not part of the sample (the statement's repeated-sample law), whatever their sign",
 		"n<2: Variance/StdDev may be 0 or NaN; empty or zero-total-weight data: Mean, GeoMean and Bounds are NaN, Sum and Weight are 0",
-		"weights are integers 0..12 or reals in {0} u [0.25,8]; |x| within 1e-60..1e60; offset/spread <= 1e9")
+		"weights are integers 0..12 or reals in {0} u [0.25,8]; |x| within 1e-60..1e60 (any sign), up to 1e140 (any sign, huge class) and up to 1e307 (one sign per sample, huge class; 1e-200 for the small values mixed in); offset/spread <= 1e9",
+		"overflow: Sum is judged only while sum|w x| <= 2^1000 and Variance/StdDev only while sum x^2 <= 2^960 (the exact value is finite and far from overflow); otherwise the calls are made (no panic, Sorted-flag law) but their values are not judged; Mean, GeoMean and Bounds of finite data are always judged",
+		"Map/Vectorize: every result element equals f(x[i]) bit for bit; neither the number of calls of f per element (>= 1 over the life of a closure), their order nor their goroutine is constrained; results are fresh storage per call")
 	r.Gate("geomean-nonpositive-values-only-at-zero-weight", "n=0", "n=1", "offset/spread>=1e8", "zero-weight-prefix", "zero-weight-suffix", "zero-weight-first", "all-zero-weights",
 		"weighted-sort-ties", "ties", "constant-data", "int-weights", "real-weights", "unweighted",
 		"geomean-nonpositive", "geomean-zero-is-the-minimum", "geomean-positive", "hist-n=0", "hist-mutate-after-copy", "hist-sort-unweighted",
 		"hist-sorted-bounds-zero-weight-end",
 		"linspace-num=0", "linspace-num=1", "linspace-num=2", "linspace-offset", "logspace-num>=2",
-		"concat-no-args", "concat-first-has-spare-capacity", "map", "vsum")
+		"concat-no-args", "concat-first-has-spare-capacity", "map", "vsum",
+		"huge-same-sign", "huge-plain-sum-overflows", "huge-weighted-sum-overflows", "huge-and-small-mixed", "huge-offset-small-spread", "huge-sum-judged", "large-variance-judged",
+		"sum-not-judged:exact-value-overflows-or-nearly", "variance-not-judged:squares-overflow-or-nearly",
+		"map-n>=128", "map-n>=128-ragged", "map-n>=1000", "map-repeat-equal-length", "map-repeat-unequal-length",
+		"logspace-num>=200", "logspace-num>=1000", "logspace-num>=1000-small-exponents")
 	if err := c09SelfTest(); err != nil {
 		r.Inconclusive("reference self-test failed: " + err.Error())
 		return
@@ -1370,6 +1651,9 @@ func c09Run(r *mon.Run) {
 
 	r.Parallel("samples", r.Pick(10000, 100000), func(w *mon.W, i int) {
 		c09JudgeSample(w, c09GenSample(w.Rng, i))
+	})
+	r.Parallel("samples-huge", r.Pick(800, 8000), func(w *mon.W, i int) {
+		c09JudgeSample(w, c09GenHuge(w.Rng, i))
 	})
 	r.Parallel("histories", r.Pick(5000, 40000), func(w *mon.W, i int) {
 		c09JudgeHistory(w, c09GenHistory(w.Rng, i))
@@ -1426,13 +1710,33 @@ func c09Run(r *mon.Run) {
 		} else {
 			c.Lo, c.Hi = mon.F(rng.Uniform(-20, 20)), mon.F(rng.Uniform(-20, 20))
 		}
+		if i%10 == 3 { // many values
+			c.Num = rng.PickI(200, 257, 1000)
+			if i%20 == 3 {
+				// small exponents: the tolerance is a few tens of ulps, an
+				// error growing with the index cannot hide in it
+				c.Num = 1000
+				c.Base = mon.F(rng.Pick(2, 10, math.E, 0.5, 1.5, rng.Uniform(0.1, 0.9), rng.Uniform(1.1, 20)))
+				if rng.Bool() {
+					c.Lo, c.Hi = mon.F(float64(rng.Range(-2, 0))), mon.F(float64(rng.Range(1, 2)))
+				} else {
+					c.Lo, c.Hi = mon.F(rng.Uniform(-2, 2)), mon.F(rng.Uniform(-2, 2))
+				}
+			}
+		}
 		c09JudgeLogspace(w, c)
 	})
 	r.Parallel("map", r.Pick(2000, 20000), func(w *mon.W, i int) {
 		rng := w.Rng
 		n := 0
-		if i%10 != 0 {
-			n = rng.Range(1, 60)
+		switch {
+		case i%10 == 0:
+		case i%50 == 7:
+			n = rng.PickI(1000, 1001, 1027, 2049, 4099)
+		case i%5 == 1:
+			n = rng.Range(128, 200)
+		default:
+			n = rng.Range(1, 200)
 		}
 		xs := c09Values(rng, rng.Intn(12), n)
 		for k := range xs {
@@ -1445,7 +1749,7 @@ func c09Run(r *mon.Run) {
 				xs[k] = math.NaN()
 			}
 		}
-		c09JudgeMap(w, c09Case{Kind: "map", Xs: mon.Fs(xs), Fn: i % len(c09Fns)})
+		c09JudgeMap(w, c09Case{Kind: "map", Xs: mon.Fs(xs), Fn: i % len(c09Fns), Seq: rng.Intn(5)})
 	})
 	r.Parallel("concat", r.Pick(3000, 30000), func(w *mon.W, i int) {
 		rng := w.Rng
